@@ -198,6 +198,10 @@ func (f *SecretFactory) newFromBuffer(lb *memguard.LockedBuffer) (*secret, error
 	if err := f.memcall().Protect(lb.Inner(), memcall.NoAccess()); err != nil {
 		// Shouldn't happen, but free up the resources if it does. We intentionally
 		// ignore the errors from the cleanup and return the reason why we got here.
+		// Wipe first so the secret never sits in unlocked or released pages.
+		lb.Melt()
+		lb.Wipe()
+
 		if err2 := memcall.Clean(f.memcall(), lb.Inner()); err2 != nil {
 			err = errors.Wrap(err, err2.Error())
 		}
